@@ -57,7 +57,7 @@ def _depth(prog):
     d, created = {}, 0
     best = 0
     for s in prog:
-        if s["s"] in ("new", "select", "alias", "add_scalar", "add_arrays", "concat", "sort", "cumsum", "diff"):
+        if s["s"] in ("new", "select", "alias", "add_scalar", "add_arrays", "concat", "concat1", "sort", "cumsum", "diff"):
             d[created] = (d.get(s.get("x"), 0) + 1) if s["s"] == "select" else 0
             best = max(best, d[created]); created += 1
     return best
@@ -81,8 +81,20 @@ def oracle(p):
     return {"k": "trace", "v": proggen.run_ref(p["prog"])}
 
 
+def lean_prog(prog):
+    """`np.concatenate([x])` (one operand) is, in the model, concatRows [x] = a fresh array with x's rows: it is sent
+    to the Lean machines as the observationally identical selection of all rows `x[:]`"""
+    out = []
+    for st in prog:
+        if st["s"] == "concat1":
+            out.append({"s": "select", "x": st["x"], "idx": {"r": {"t": "slice", "a": None, "b": None, "k": None}, "c": None}})
+        else:
+            out.append(st)
+    return out
+
+
 def lean_request(p):
-    return {"op": "Heap.run", "prog": p["prog"]}
+    return {"op": "Heap.run", "prog": lean_prog(p["prog"])}
 
 
 def _conv_obs(st, j):
